@@ -23,6 +23,20 @@ UNITS = [
              ("operands", "r matches Ok(c) ==> cmp_lhs(c) == left && cmp_rhs(c) == right"),
          ]),
 
+    # constructors the AST builder of src/parser.rs calls (the builder itself is pest `Pair` code, out of reach)
+    Unit(name="JpQuery::new", file=M, impl="impl JpQuery", fn="new", order=80, serves=["C01"],
+         ensures=[("def", "r.segments == segments")]),
+    Unit(name="slice_from", file=M, fn="slice_from", order=80, serves=["C11", "C01"],
+         ensures=[("def", "r == Selector::Slice(__p0.0, __p0.1, __p0.2)")]),
+    Unit(name="FilterAtom::filter", file=M, impl="impl FilterAtom", fn="filter", order=80, serves=["C05"],
+         ensures=[("def", "r == (FilterAtom::Filter { expr: Box::new(expr), not })")]),
+    Unit(name="FilterAtom::test", file=M, impl="impl FilterAtom", fn="test", order=80, serves=["C05"],
+         ensures=[("def", "r == (FilterAtom::Test { expr: Box::new(expr), not })")]),
+    Unit(name="FilterAtom::cmp", file=M, impl="impl FilterAtom", fn="cmp", order=80, serves=["C05", "C04"],
+         ensures=[("def", "r == FilterAtom::Comparison(cmp)")]),
+    # TestFunction::try_new (arity / argument typing of the five standard functions) stays outside the store: Verus rejects its
+    # slice patterns (`("length", [a]) => ..`); turning them into length tests and indexing would be a rewrite of the function,
+    # not an extraction rule.  The typing tables it relies on (is_lit, is_filter, is_comparable, is_res_bool) are proved below.
     Unit(name="FnArg::is_lit", file=M, impl="impl FnArg", fn="is_lit", order=80, serves=["C10"],
          ret_name="b", ensures=[("def", "b == (*self is Literal)")]),
     Unit(name="FnArg::is_filter", file=M, impl="impl FnArg", fn="is_filter", order=80, serves=["C10"],
